@@ -23,6 +23,12 @@ Clauses
                 files, and a history of entry points loaded through ONE DictLoader: every load must equal
                 what a fresh reference gives (names resolve relative to the directory of the file that
                 contains the directive; a loader's history never changes what a template means).
+  loaders:      a third of the well-formed cases go through the file-system tornado.template.Loader (files
+                written as UTF-8 bytes into a temporary directory) instead of DictLoader; part "edges"
+                enumerates 23 edge characters (CRLF, CR, LF, NEL, LS, PS, VT, FF, FS..US, NUL, DEL, NBSP,
+                non-ASCII, astral, U+FEFF inside text, TAB, SP) in the literal text of an entry / included /
+                parent+overriding-block file x {DictLoader, Loader} x whitespace {default, all, single}.
+                A UTF-8 BOM at the start of a file is not generated: the documentation says nothing about it.
 The arguments of {% autoescape %} and {% apply %} are plain function names (the documented form).
 EITHER classes (universal safety only): Unicode whitespace other than SP/HTAB/LF and "<pre>" under
 whitespace modes single/oneline; '{{' directly followed by '%'/'#'; else/elif/except/finally orders that
@@ -33,7 +39,7 @@ Open findings on the current tree (known_findings.d/C19.json, findings_inbox/C19
 without a function is accepted and turns escaping off; `{% whitespace <bad mode> %}` raises a bare
 Exception; "block missing name"/"apply missing method name" name the line of the matching end tag.
 
-Sensitivity (quick tier, seed 1, scratch copy of /repo/tornado/template.py; all 12 caught):
+Sensitivity (quick tier, seed 1, scratch copy of /repo/tornado/template.py; all 14 caught):
   M1 _IntermediateControlBlock writes the else/elif/except line at indent_size() instead of -1 -> C19.wellformed_rejected (SyntaxError)
   M2 '{{!' escape consumes two characters instead of one                                     -> C19.output
   M3 filter_whitespace("single") replaces newline runs by " " instead of "\n"                -> C19.output
@@ -52,6 +58,14 @@ Sensitivity (quick tier, seed 1, scratch copy of /repo/tornado/template.py; all 
       (`{% if t %}{` compiles silently); was missed before the mutation "unterminated_block_tail"     (ill_open_block_lone_brace_tail),
       (if/for/while/block/apply/try left open x tails '', '{', 'x{', '{{!', '{%!{', '{{', '{%',      seeds 1, 2, 3
       '{#', '{{ n', ... at a generated cut position) was added
+  M13 Loader._create_template opens the file in text mode (universal newlines: CRLF / lone CR in   -> C19.output, part "edges" (deterministic)
+      the source become LF); was missed before the file-system Loader variant (a third of "main",     and "main", seeds 1, 2, 3
+      half of "edges") and the edge-character family were added
+  M14 _CodeWriter.include().__exit__ restores with include_stack.pop(0) (outermost instead of the  -> C19.output, part "nest" (deterministic),
+      enclosing template after a 2-level nesting returns); found at seed 1 but missed at seed 2       seeds 1, 2
+      after the generator distribution shifted; now pinned by the deterministic part "nest" (100 cases:
+      include in include, include inside an overriding block of a 2-/3-level extends chain, through
+      loops/apply, all per-file autoescape policies different, an expression after every return)
 """
 import logging
 
@@ -114,6 +128,22 @@ def build(case):
     if case["loader"]["whitespace"]:
         kw["whitespace"] = case["loader"]["whitespace"]
     return files, rendered, kw
+
+
+def run_real_fs(files, kw, entry, kwargs):
+    """The same through the file-system Loader: the files are written as UTF-8 bytes into a temporary
+    directory (removed afterwards)."""
+    import os
+    import tempfile
+
+    with tempfile.TemporaryDirectory(prefix="c19fs") as root:
+        for name, text in files.items():
+            path = os.path.join(root, name)
+            os.makedirs(os.path.dirname(path), exist_ok=True)
+            with open(path, "wb") as f:
+                f.write(text.encode("utf-8"))
+        loader = template.Loader(root, namespace=G.loader_namespace(), **kw)
+        return run_real(files, kw, entry, kwargs, loader=loader)
 
 
 def run_real(files, kw, entry, kwargs, loader=None):
@@ -222,7 +252,11 @@ def run_case(ctx, case):
             files = dict(files)
             files[fd["name"]] = mut["src"]
 
-    real = run_real(files, kw, entry, kwargs)
+    if case.get("fs"):
+        labels.add("fs_loader")
+        real = run_real_fs(files, kw, entry, kwargs)
+    else:
+        real = run_real(files, kw, entry, kwargs)
     ref = run_ref(files, kw, entry, kwargs)
 
     if mut is not None:
@@ -338,11 +372,46 @@ def run_dirs_case(ctx, case):
     ctx.note(case, labels, True)
 
 
-PARTS = {"main": run_case, "illformed": run_case, "dirs": run_dirs_case}
+# ---- deterministic boundary family: line-break-like and other edge characters in literal text of the entry,
+# an included file, a parent file and an overriding block, through DictLoader and the file-system Loader
+EDGE_CHARS = ["\r\n", "\r", "\n", "\r\r\n", "\n\r", "\x85", "\u2028", "\u2029", "\x0b", "\x0c", "\x1c", "\x1d", "\x1e", "\x1f",
+              "\x00", "\x7f", "\xa0", "\u00e9", "\u4e2d", "\U0001F600", "\ufeff", "\t", " "]
+
+
+def edge_cases():
+    for ch in EDGE_CHARS:
+        t = "a" + ch + "b" + ch
+        layouts = [
+            [{"name": "page.txt", "extends": None, "body": [["text", t], ["expr", "n", 0], ["text", ch + "z"]]}],
+            [{"name": "page.txt", "extends": None, "body": [["text", "p"], ["include", "sub/inc.txt", 0], ["text", "q"]]},
+             {"name": "sub/inc.txt", "extends": None, "body": [["text", t]]}],
+            [{"name": "sub/page.txt", "extends": ["../base.txt", 0, 0], "body": [["block", "b0", [["text", "c" + t]]]]},
+             {"name": "base.txt", "extends": None, "body": [["text", t], ["block", "b0", [["text", "d"]]], ["text", ch]]}],
+        ]
+        for files in layouts:
+            for fs in (False, True):
+                for ws in (None, "all", "single"):
+                    yield {"files": files, "loader": {"autoescape": "default", "whitespace": ws}, "profile": "c19",
+                           "tagstyle": 0, "mutation": None, "fs": fs}
+
+
+def nest_cases():
+    """Deterministic family shared with C20: composition nested 2 and 3 levels deep, every file with a different
+    autoescape policy, an expression after every inner construct returns."""
+    for k, files in enumerate(G.nest_layouts(["s", "u", "obj", "items[1]", "d['k']"], ["xhtml_escape", "None", "url_escape", "myesc", "up"], stride=6)):
+        yield {"files": files, "loader": {"autoescape": ["default", None, "myesc"][k % 3], "whitespace": None}, "profile": "c19",
+               "tagstyle": k % 3, "mutation": None, "fs": k % 4 == 0}
+
+
+PARTS = {"main": run_case, "edges": run_case, "nest": run_case, "illformed": run_case, "dirs": run_dirs_case}
 
 
 def main(ctx):
     ctx.run_replays(PARTS)
-    ctx.explore(G.case_strategy("c19", mutate_prob=(0, 0)), run_case, ctx.n(1000, 30000), name="main")
+    ctx.enumerate(edge_cases(), run_case, name="edges")
+    ctx.enumerate(nest_cases(), run_case, name="nest")
+    main_cases = st.tuples(G.case_strategy("c19", mutate_prob=(0, 0)), st.integers(0, 2)).map(
+        lambda p: dict(p[0], fs=(p[1] == 0)))  # a third of the cases go through the file-system Loader
+    ctx.explore(main_cases, run_case, ctx.n(1000, 30000), name="main")
     ctx.explore(G.case_strategy("c19", mutate_prob=(1, 1)), run_case, ctx.n(500, 15000), name="illformed")
     ctx.explore(G.dirs_case_strategy("c19"), run_dirs_case, ctx.n(250, 8000), name="dirs")
